@@ -6,10 +6,10 @@ package main
 // decoded parameter lists of the template. No string solving is involved.
 
 import (
-	"os"
 	"fmt"
 	"go/constant"
 	"go/types"
+	"os"
 	"strings"
 
 	"golang.org/x/tools/go/ssa"
@@ -35,8 +35,9 @@ type tokTemplate struct {
 
 // pseudo mode numbers of the ghost mode table for modes that are not DEC private modes
 const (
-	modeKeypad  = -1 // keypad application mode (ESC = / ESC >)
-	modeKittyKB = -2 // depth of the kitty keyboard flag stack pushed by this program
+	modeKeypad      = -1 // keypad application mode (ESC = / ESC >)
+	modeKittyKB     = -2 // depth of the kitty keyboard flag stack pushed by this program
+	modeCursorShape = -3 // DECSCUSR value last written
 )
 
 func parseTemplate(s string) *tokTemplate {
@@ -67,6 +68,10 @@ func parseTemplate(s string) *tokTemplate {
 		return t
 	case s == "\x1b[>%du":
 		t.kind, t.mode, t.set, t.nargs = "mode", tokItem{lit: modeKittyKB, hole: -1}, +2, 1
+		return t
+	case s == "\x1b[%d q":
+		// DECSCUSR: the cursor shape, kept in the mode table under the pseudo mode -3 (the value is the shape)
+		t.kind, t.mode, t.set, t.nargs = "mode", tokItem{lit: modeCursorShape, hole: -1}, 3, 1
 		return t
 	case s == "\x1b[<u":
 		t.kind, t.mode, t.set = "mode", tokItem{lit: modeKittyKB, hole: -1}, -2
@@ -408,6 +413,12 @@ func (ex *Exec) applyToken(st *State, tk *Token) {
 			st.heap[mk.Name] = c.Store(tbl, m, c.Add(c.Select(tbl, m), c.IntLit(1)))
 		case -2:
 			st.heap[mk.Name] = c.Store(tbl, m, c.Sub(c.Select(tbl, m), c.IntLit(1)))
+		case 3:
+			if len(tk.args) == 1 && tk.args[0].Tm != nil {
+				st.heap[mk.Name] = c.Store(tbl, m, tk.args[0].Tm)
+			} else {
+				ex.havocKey(st, mk)
+			}
 		}
 		return
 	case "osc8":
